@@ -385,6 +385,8 @@ def gen(col, seed, n, lang, use_corpus):
             rnd = draw(st.randoms(use_true_random=False))
             ast = P.gen_program(rnd, lang, draw(st.sampled_from([10, 20, 35])))
             text = P.render(ast).text
+            if draw(st.integers(0, 7)) == 0:
+                text = "\ufeff" + text  # a file saved with a byte order mark
             case = {"lang": lang, "text": text}
         edits = draw_plan(draw, lang, text)
         return case, text, edits
@@ -406,6 +408,8 @@ def gen(col, seed, n, lang, use_corpus):
         for k in kinds:
             col.label(f"edit:{k}")
         col.label(f"lang:{lang}", "base:corpus" if "corpus" in case else "base:generated")
+        if text.startswith("\ufeff"):
+            col.label("base:with-bom")
         if nt:
             from vf.common import digest
 
